@@ -770,6 +770,10 @@ func (a *tagAnalysis) shape(ev string, parts []ssa.Value, v ssa.Value, pos token
 		}
 	case "closeend":
 		a.shapeSites[pos] = true
+		// ">" + "</" + key + ">" assembled from two pieces is the same text
+		if len(parts) == 4 && cs(0) == ">" && cs(1) == "</" && parts[2] == ssa.Value(a.key) && cs(3) == ">" {
+			return
+		}
 		if !(len(parts) == 3 && cs(0) == "></" && parts[1] == ssa.Value(a.key) && cs(2) == ">") {
 			bad("an end tag is not '></' + the element name parameter + '>'")
 		}
@@ -1184,6 +1188,9 @@ func (a *tagAnalysis) classify(parts []ssa.Value) string {
 	if s, ok := constString(v); ok {
 		switch {
 		case strings.HasPrefix(s, "></"):
+			return "closeend"
+		case s == ">" && len(parts) > 1 && func() bool { n, ok := constString(parts[1]); return ok && strings.HasPrefix(n, "</") }():
+			// ">" + "</" + key + ">" assembled from two pieces
 			return "closeend"
 		case strings.HasPrefix(s, "</"):
 			return "end"
